@@ -282,3 +282,25 @@ Example c08_ack_suppression_example :
   map (fun o => match o with Some _ => true | None => false end) (snd (so_run so_init (repeat idle 13)))
   = [true; false; false; false; false; false; false; false; false; false; false; true; false].
 Proof. vm_compute. reflexivity. Qed.
+
+(* ---- windowSize = uint16(cwndSize) (premise (a) of c08_liveness_fair_lossless_rto_rounds_partial): recvAck clamps
+   cwndSize below at 10 but not above, and the conversion wraps at 65536 — "windowSize >= 1 after every
+   acknowledgement" is false as a statement about single steps: at cwndSize = 65536 the window is 0 and the
+   timer case transmits nothing although a frame is buffered.  (Such a cwndSize needs about 2.1*10^9 acknowledged
+   frames of more than 1000 bytes without a window cut: docs/C08.md.  Replayed on the real sender with an
+   injected cwndSize: driver class window-conversion-injected-cwnd.) *)
+From Hop Require Import TubesFloat.
+Open Scope N_scope.
+Theorem c08_window_size_wraps_to_zero_refuted :
+  exists c : float, fl_ltb c f10 = false /\ window_after_ack c = 0 /\
+    forall s : sender, s_wsize s = window_after_ack c -> s_rtoc s = 0%Z -> ~ tick_sends s.
+Proof.
+  exists (fl_of_Z 65536). split; [vm_compute; reflexivity|]. split; [vm_compute; reflexivity|].
+  intros s W R. unfold tick_sends, frames_to_send. rewrite W, R.
+  replace (window_after_ack (fl_of_Z 65536)) with 0 by (vm_compute; reflexivity).
+  change (Z.of_N 0) with 0%Z. change (0 <? 0)%Z with false. cbv iota.
+  destruct (Z.of_nat (List.length (s_frames s)) <? 0 + 0)%Z eqn:E.
+  - apply Z.ltb_lt in E. lia.
+  - change (0 <? 0)%Z with false. cbv iota. lia.
+Qed.
+Print Assumptions c08_window_size_wraps_to_zero_refuted.
